@@ -96,3 +96,23 @@ func TestSolveNonce(t *testing.T) {
 		t.Fatal("Inv")
 	}
 }
+
+func TestBlocksParallelEqualsSequential(t *testing.T) {
+	h := []byte{0x66, 0xe9, 0x4b, 0xd4, 0xef, 0x8a, 0x2c, 0x3b, 0x88, 0x4c, 0xfa, 0x59, 0xca, 0x34, 0x2b, 0x2e}
+	for _, n := range []int{0, 1, 15, 16, 17, 1000, 4096, 65537, 100003} {
+		data := make([]byte, n)
+		for i := range data {
+			data[i] = byte(i*7 + i>>8)
+		}
+		for _, w := range []int{1, 2, 3, 16} {
+			a, b := NewGHashStream(h), NewGHashStream(h)
+			a.Blocks([]byte("prefix-field-aad"))
+			b.Blocks([]byte("prefix-field-aad"))
+			a.Blocks(data)
+			b.BlocksParallel(data, w)
+			if string(a.Sum(16, n)) != string(b.Sum(16, n)) {
+				t.Fatalf("n=%d workers=%d: parallel GHASH differs", n, w)
+			}
+		}
+	}
+}
